@@ -56,6 +56,20 @@ class C05(Property):
                    'ReactionSystem default checks other than balance (substance_keys, duplicate, duplicate_names) are made to pass by '
                    'construction in the constructor cases; their iteration order (a Python set) is not modelled',
                    'the reaction named in the ValueError text is identified with the first reaction printing identically')
+    clauses_without_theorem = (
+        'numerical integration keeps the invariants at their initial values to solver tolerance: not modelled, no theorem (sampled by C06)',
+        'the constructor with default checks: theorem constructor_accept_iff covers it with the outcome of check_duplicate / '
+        'check_duplicate_names as an explicit Boolean hypothesis (those two checks are not modelled here); that the real constructor is the '
+        'conjunction of its checks is tied by correspondence only',
+        'Substance.__init__ (charge keyword merged into composition[0], empty composition kept as {} and not turned into None) is not '
+        'modelled: correspondence/oracle only (cases with charge_kw and explicitly empty compositions)',
+        'odesys.linear_invariants / linear_invariant_names equal composition_balance_vectors(): correspondence only',
+        'the matrix handed to the analytic solver is the rref of the composition vectors (sympy, delegated): correspondence only',
+        'decimal (float) composition amounts: the exact model is compared with the float implementation (accepted iff exactly balanced) '
+        'outside the open finding check_balance:float-roundoff-decimal-compositions; no theorem about float arithmetic',
+        'results depend only on the current state of the object (no stale caches after sort_substances_inplace, +=, re-assigned '
+        'compositions) and hold for array-valued concentrations without modifying inputs: history / batched correspondence and oracle only',
+    )
     anchors = (('chempy/reactionsystem.py', 'ReactionSystem.check_balance'), ('chempy/reactionsystem.py', 'ReactionSystem.composition_balance_vectors'),
                ('chempy/chemistry.py', 'Reaction.composition_violation'), ('chempy/chemistry.py', 'Reaction._violation'),
                ('chempy/chemistry.py', 'Reaction.net_stoich'), ('chempy/chemistry.py', 'Substance.composition_keys'),
@@ -66,8 +80,10 @@ class C05(Property):
 
     # ---- generation -------------------------------------------------------------------------
     def _system(self, rng, tier, formulas=False):
-        """-> (subs: OrderedDict name -> comp dict | None, rxn specs, planted: 'balanced' | ('unbalanced', idx, key))"""
+        """-> (subs: OrderedDict name -> comp dict, rxn specs, planted: 'balanced' | ('unbalanced', idx, key), charge_kw: name -> charge
+        for substances to be constructed as Substance(name, charge=n, composition=<the rest>))"""
         subs = OrderedDict()
+        charge_kw = {}
         if formulas:
             from chempy import Substance
             for f in rng.sample(FORMULAS, rng.randint(2, 5)):
@@ -148,7 +164,22 @@ class C05(Property):
             side = rng.choice(['reac', 'prod', 'inact_reac', 'inact_prod'])
             rxns[idx][side] = rxns[idx][side] + [[dname, rng.randint(1, 2)]]
             planted = ['unbalanced', idx, key]
-        return subs, rxns, planted
+            if key == 0 and rng.random() < 0.5:
+                # an explicit electron-like species: Substance(name, charge=n, composition={})
+                charge_kw[dname] = subs[dname][0]
+        if not formulas and rxns and rng.random() < 0.2:
+            # an atom-free, uncharged species (photon, vacancy) with an explicitly EMPTY composition on one side of a reaction
+            subs['hv'] = {}
+            j = rng.randrange(len(rxns))
+            side = rng.choice(['reac', 'prod', 'inact_reac', 'inact_prod'])
+            rxns[j][side] = rxns[j][side] + [['hv', 1]]
+        if rng.random() < 0.15 and subs:
+            # the charge of a charged species given through the `charge` keyword instead of composition[0]
+            ch = [k for k, c in subs.items() if c.get(0) and k not in charge_kw]
+            if ch:
+                k = rng.choice(ch)
+                charge_kw[k] = subs[k][0]
+        return subs, rxns, planted, charge_kw
 
     def generate(self, rng, n, tier):
         cases = []
@@ -157,15 +188,22 @@ class C05(Property):
             if i % 8 == 5:
                 cases.append(self._history(rng, tier))
                 continue
-            subs, rxns, planted = self._system(rng, tier, formulas=rng.random() < 0.25)
-            scale = rng.choice([1, 1, 1, [1, 2], [3, 2]])
+            subs, rxns, planted, charge_kw = self._system(rng, tier, formulas=rng.random() < 0.25)
+            scale = rng.choice([[1, 10], [3, 10], [7, 10], [1, 100]]) if rng.random() < 0.12 else rng.choice([1, 1, 1, [1, 2], [3, 2]])
+            dec = isinstance(scale, list) and scale[1] in (10, 100)       # decimal amounts: the real code computes with floats
             sj = [[k, _comp_json({e: kg.frac(scale) * v for e, v in c.items()})] for k, c in subs.items()]
+            charge_kw = {k: rat_json(kg.frac(scale) * v) for k, v in charge_kw.items()}
             if rng.random() < 0.12 and sj:
                 sj[rng.randrange(len(sj))][1] = None                   # a substance without composition
             if rng.random() < 0.3:
                 rng.shuffle(sj)
-            base = {'subs': sj, 'rxns': rxns, 'planted': planted}
+            base = {'subs': sj, 'rxns': rxns, 'planted': planted, 'charge_kw': charge_kw}
             r = rng.random()
+            if dec:
+                # floats cannot be compared exactly on the vector / helper ops: decimal amounts go through the acceptance ops only
+                cases.append(dict(base, op='check_balance', strict=False, throw=True, dec=True,
+                                  via=rng.choice(['method', 'constructor'])))
+                continue
             if i < n_ode and planted == 'balanced' and rxns and all(c is not None for _, c in sj):
                 used = {k for s in rxns for k in kg.spec_keys(s)}
                 sj2 = [p for p in sj if p[0] in used]
@@ -175,8 +213,18 @@ class C05(Property):
                 c = dict(base, subs=sj2, op='elim', preferred=pref, seed=rng.randrange(10 ** 9))
             elif r < 0.3:
                 c = dict(base, op='check_balance', strict=rng.random() < 0.3, throw=rng.random() < 0.8, via='method')
-            elif r < 0.55:
+            elif r < 0.45:
                 c = dict(base, op='check_balance', strict=False, throw=True, via='constructor')
+            elif r < 0.55:
+                # the constructor as the conjunction of its default checks: unknown keys, duplicated reactions
+                c = dict(base, op='construct', rxns=[dict(x) for x in rxns])
+                m = rng.random()
+                used = [k for k, _ in sj if any(k in kg.spec_keys(x) for x in rxns)]
+                if m < 0.35 and used:
+                    drop = rng.choice(used)
+                    c['subs'] = [p for p in sj if p[0] != drop]
+                elif m < 0.55 and rxns:
+                    c['rxns'].append(dict(rng.choice(rxns)))
             elif r < 0.72 and rxns:
                 ck = None
                 m = rng.random()
@@ -184,14 +232,15 @@ class C05(Property):
                     ck = sorted(rng.sample(ELEMENTS + [0, 99], rng.randint(0, 4)))
                     rng.shuffle(ck)
                 c = {'op': 'comp_violation', 'subs': sj, 'rxn': rng.choice(rxns), 'ckeys': ck, 'ret_keys': ck is None and m < 0.7,
-                     'planted': planted}
+                     'planted': planted, 'charge_kw': charge_kw}
                 if rng.random() < 0.05:
                     c['subs'] = []
             elif r < 0.85:
-                c = {'op': 'balance_vectors', 'subs': sj, 'rxns': rxns, 'planted': planted}
+                c = {'op': 'balance_vectors', 'subs': sj, 'rxns': rxns, 'planted': planted, 'charge_kw': charge_kw}
             elif rxns:
                 which = rng.choice(['mass', 'charge', 'mass_given'])
-                c = {'op': 'attr_violation', 'subs': sj, 'rxn': rng.choice(rxns), 'which': which, 'planted': planted}
+                c = {'op': 'attr_violation', 'subs': sj, 'rxn': rng.choice(rxns), 'which': which, 'planted': planted,
+                     'charge_kw': charge_kw}
                 if which == 'mass_given':
                     c['masses'] = [[k, rat_json(Fraction(rng.randint(1, 400), 4))] for k, _ in sj]
             else:
@@ -210,7 +259,7 @@ class C05(Property):
         return all(sum(Fraction(comps[k].get(e, 0)) * kg.net_of(s, k) for k in comps) == 0 for s in state['rxns'] for e in keys)
 
     def _history(self, rng, tier):
-        subs, rxns, planted = self._system(rng, tier, formulas=rng.random() < 0.25)
+        subs, rxns, planted, charge_kw = self._system(rng, tier, formulas=rng.random() < 0.25)
         sj = [[k, _comp_json(c)] for k, c in subs.items()]
         rng.shuffle(sj)                                            # an order that sorting will change
         state = {'subs': [list(p) for p in sj], 'rxns': [dict(r) for r in rxns]}
@@ -274,7 +323,8 @@ class C05(Property):
             steps.append(st)
             for _ in range(rng.randint(1, 2)):
                 steps.append(observe())
-        return {'op': 'history', 'subs': sj, 'rxns': rxns, 'planted': planted, 'steps': steps, 'seed': rng.randrange(10 ** 9)}
+        return {'op': 'history', 'subs': sj, 'rxns': rxns, 'planted': planted, 'steps': steps, 'seed': rng.randrange(10 ** 9),
+                'charge_kw': charge_kw}
 
     @staticmethod
     def _apply_pure(state, st):
@@ -356,16 +406,28 @@ class C05(Property):
         return '!unknown-op'
 
     # ---- real objects -----------------------------------------------------------------------
-    def _substances(self, sj, masses=None):
+    def _substances(self, sj, masses=None, c=None):
+        """the real Substance objects of a case. `charge_kw` (name -> charge): that substance is constructed with the `charge`
+        keyword and its composition without key 0 (possibly the empty dict); `dec`: non-integer amounts are given as floats."""
         from chempy import Substance
         md = dict((k, kg.frac(v)) for k, v in masses) if masses else {}
-        return OrderedDict((k, Substance(k, composition=_comp_of(cj), data=({'mass': float(md[k])} if k in md else None)))
-                           for k, cj in sj)
+        ckw = (c or {}).get('charge_kw') or {}
+        dec = bool((c or {}).get('dec'))
+        out = OrderedDict()
+        for k, cj in sj:
+            comp = _comp_of(cj)
+            if comp is not None and dec:
+                comp = OrderedDict((e, (int(v) if Fraction(v).denominator == 1 else float(v))) for e, v in comp.items())
+            kw = {}
+            if comp is not None and k in ckw and 0 in comp:
+                kw['charge'] = comp.pop(0)
+            out[k] = Substance(k, composition=comp, data=({'mass': float(md[k])} if k in md else None), **kw)
+        return out
 
     def _rsys(self, c, checks=()):
         from chempy import ReactionSystem
         rxns = [kg.mk_reaction(s, 'int') for s in c['rxns']]
-        return ReactionSystem(rxns, self._substances(c['subs']), checks=checks), rxns
+        return ReactionSystem(rxns, self._substances(c['subs'], c=c), checks=checks), rxns
 
     def _elim(self, c):
         """run the real get_odesys / analytic solver once per case"""
@@ -431,6 +493,10 @@ class C05(Property):
             m['rxns'] = [kg.readback(kg.mk_reaction(s, 'int'), s) for s in c['rxns']]
         if 'rxn' in c:
             m['rxn'] = kg.readback(kg.mk_reaction(c['rxn'], 'int'), c['rxn'])
+        if op == 'construct':
+            from chempy import ReactionSystem
+            rs = ReactionSystem([kg.mk_reaction(x, 'int') for x in c['rxns']], self._substances(c['subs'], c=c), checks=())
+            m['dup_ok'] = bool(rs.check_duplicate() and rs.check_duplicate_names())     # not modelled: taken from the real checks
         if op == 'attr_violation':
             if c['which'] == 'mass_given':
                 m['attrs'] = c['masses']
@@ -479,9 +545,15 @@ class C05(Property):
                     else:
                         rsys = self._apply_real(rsys, st)
                 return ' | '.join(outs)
+            if op == 'construct':
+                try:
+                    ReactionSystem([kg.mk_reaction(x, 'int') for x in c['rxns']], self._substances(c['subs'], c=c))
+                    return 'True'
+                except ValueError:
+                    return 'ValueError'
             if op == 'check_balance':
                 rxns = [kg.mk_reaction(s, 'int') for s in c['rxns']]
-                subs = self._substances(c['subs'])
+                subs = self._substances(c['subs'], c=c)
                 if c['via'] == 'constructor':
                     try:
                         ReactionSystem(rxns, subs)
@@ -495,7 +567,7 @@ class C05(Property):
                     return self._balance_line(e, rxns)
             if op == 'comp_violation':
                 rxn = kg.mk_reaction(c['rxn'], 'int')
-                subs = self._substances(c['subs'])
+                subs = self._substances(c['subs'], c=c)
                 if c['ckeys'] is None:
                     if c['ret_keys']:
                         net, ck = rxn.composition_violation(subs, True)
@@ -512,7 +584,7 @@ class C05(Property):
                 return '[' + ','.join(show_rat_list(map(kg.to_frac, row)) for row in B) + '];' + show_int_list(ck)
             if op == 'attr_violation':
                 rxn = kg.mk_reaction(c['rxn'], 'int')
-                subs = self._substances(c['subs'], c.get('masses'))
+                subs = self._substances(c['subs'], c.get('masses'), c=c)
                 v = rxn.mass_balance_violation(subs) if c['which'] == 'mass_given' else rxn.charge_neutrality_violation(subs)
                 return show_rat(Fraction(v))
             if op == 'elim_full':
@@ -549,12 +621,29 @@ class C05(Property):
                 return ip[2] == 'circular' or ip[2] == vals
             except Exception:
                 return False
+        if c['op'] == 'check_balance' and c.get('dec'):
+            # decimal amounts: exact Fractions in the model, floats in the real code
+            if self._roundoff_reject(io):
+                return True      # open finding check_balance:float-roundoff-decimal-compositions; decided by the oracle
+            a, b = io.split(':'), mo.split(':')
+            if len(a) == len(b) == 5 and a[:4] == b[:4]:
+                return close(float(Fraction(a[4])), Fraction(b[4]), 1e-9)
+            return io == mo
         if c['op'] == 'attr_violation':
             try:
                 return Fraction(io) == Fraction(mo)
             except Exception:
                 return io == mo
         return io == mo
+
+    @staticmethod
+    def _roundoff_reject(line):
+        """the real code rejected with a net amount of round-off size (genuine imbalances of the generated cases are >= 1/100)"""
+        p = str(line).split(':')
+        try:
+            return len(p) == 5 and p[1] == 'violation' and 0 < abs(float(Fraction(p[4]))) < 1e-9
+        except Exception:
+            return False
 
     # ---- oracle -----------------------------------------------------------------------------
     def _balanced(self, c, spec):
@@ -582,6 +671,32 @@ class C05(Property):
             return self._oracle_attr(c)
         if op == 'history':
             return self._oracle_history(c)
+        if op == 'construct':
+            return self._oracle_construct(c)
+        return None
+
+    def _oracle_construct(self, c):
+        """accepted by the constructor iff all keys are substances, no reaction occurs twice, and (every substance has a composition
+        => every reaction is balanced); all computed here from the case"""
+        from chempy import ReactionSystem
+        names = [k for k, _ in c['subs']]
+        known = all(k in names for x in c['rxns'] for k in kg.spec_keys(x))
+        canon = [json.dumps({p: sorted(map(tuple, x[p])) for p in ('reac', 'prod', 'inact_reac', 'inact_prod')}, sort_keys=True)
+                 + json.dumps(x['param']) for x in c['rxns']]
+        nodup = len(set(canon)) == len(canon)
+        viol = [self._balanced(c, x) for x in c['rxns']]
+        bal = True if any(cj is None for _, cj in c['subs']) else all(not v for v in viol)
+        if not names and c['rxns']:
+            return None
+        try:
+            ReactionSystem([kg.mk_reaction(x, 'int') for x in c['rxns']], self._substances(c['subs'], c=c))
+            res, err = True, None
+        except ValueError as e:
+            res, err = False, str(e)
+        want = known and nodup and bal
+        if res != want:
+            return 'constructor %s (%s) although keys known=%s, no duplicate=%s, balanced=%s' % (
+                'accepted' if res else 'rejected', err, known, nodup, bal)
         return None
 
     def _oracle_history(self, c):
@@ -655,9 +770,17 @@ class C05(Property):
     def _oracle_accept(self, c):
         from chempy import ReactionSystem
         rxns = [kg.mk_reaction(s, 'int') for s in c['rxns']]
-        subs = self._substances(c['subs'])
+        subs = self._substances(c['subs'], c=c)
         viol = [self._balanced(c, s) for s in c['rxns']]
         has_all = all(cj is not None for _, cj in c['subs'])
+        for k, cj in c['subs']:
+            want = _comp_of(cj)
+            got = subs[k].composition
+            if (want is None) != (got is None) or (want is not None and {e: Fraction(v) for e, v in got.items()} !=
+                                                   {e: Fraction(float(v)) if c.get('dec') and Fraction(v).denominator != 1 else Fraction(v)
+                                                    for e, v in want.items()}):
+                return 'Substance %r was given the composition %s%s but stores %s' % (
+                    k, dict(want) if want is not None else None, ' (charge by keyword)' if k in (c.get('charge_kw') or {}) else '', got)
         try:
             if c['via'] == 'constructor':
                 ReactionSystem(rxns, subs)
@@ -675,6 +798,23 @@ class C05(Property):
         if not subs and rxns:
             return None          # zip(*{}.items()) edge: see empty_substances_defect_witness (unreachable with default Reaction checks)
         balanced = all(not v for v in viol)
+        if c.get('dec') and not res:
+            mm = re.match(r'Composition violation \((-?\d+): (.*?)\) in (.*)$', err, re.S)
+            if mm and 0 < abs(float(mm.group(2))) < 1e-9:
+                # which reaction?  recompute exactly and in floats (same accumulation order as the code)
+                key = int(mm.group(1))
+                strs = [r.string(with_param=False, with_name=False) for r in rxns]
+                idx = strs.index(mm.group(3)) if mm.group(3) in strs else -1
+                comps = OrderedDict((k, _comp_of(cj)) for k, cj in c['subs'])
+                spec = c['rxns'][idx]
+                exact = sum(Fraction(v.get(key, 0)) * kg.net_of(spec, k) for k, v in comps.items())
+                fl = 0
+                for k, v in comps.items():
+                    fl += (float(v.get(key, 0)) if Fraction(v.get(key, 0)).denominator != 1 else int(v.get(key, 0))) * kg.net_of(spec, k)
+                nonint = any(Fraction(v.get(key, 0)).denominator != 1 for k, v in comps.items() if kg.net_of(spec, k) != 0)
+                if idx >= 0 and exact == 0 and fl != 0 and nonint:
+                    return ('[float-roundoff] reaction %d (%s) is exactly balanced in key %d over the decimal amounts, but the float sum is %r '
+                            'and check_balance rejects it' % (idx, mm.group(3), key, fl))
         if res != balanced:
             return 'system is %s but was %s (%s)' % ('balanced' if balanced else 'unbalanced', 'accepted' if res else 'rejected', err)
         if not res:
@@ -682,8 +822,15 @@ class C05(Property):
             if not mm:
                 return 'rejection does not name a composition key: %s' % err
             key, net = int(mm.group(1)), Fraction(mm.group(2))
-            if not any((key, net) in v for v in viol if v):
+            if c.get('dec'):
+                if not any(k == key and close(float(net), n, 1e-9) for v in viol if v for k, n in v):
+                    return 'rejection names key %d with net %s, which is no violated key of any reaction' % (key, float(net))
+            elif not any((key, net) in v for v in viol if v):
                 return 'rejection names key %d with net %s, which is no violated key of any reaction' % (key, net)
+        if res and has_all and rxns and not c.get('dec'):
+            rsys = ReactionSystem(rxns, subs, checks=())
+            B, ck = rsys.composition_balance_vectors()
+            return self._conservation_batched(c, rsys, B, list(ck))
         return None
 
     def _oracle_vectors(self, c):
@@ -698,6 +845,38 @@ class C05(Property):
         want = [[v.get(e, 0) for v in comps] for e in keys]
         if [[Fraction(x) for x in row] for row in B] != [[Fraction(x) for x in row] for row in want]:
             return 'composition_balance_vectors has a wrong entry'
+        if c.get('planted') == 'balanced' and c['rxns']:
+            return self._conservation_batched(c, rsys, B, keys)
+        return None
+
+    def _conservation_batched(self, c, rsys, B, keys):
+        """B . rates(c) = 0 for scalar concentrations AND for a batch of states given as (mutable) numpy arrays: every batch element
+        must equal the scalar evaluation, the inputs must not be modified, and the reported vectors must annihilate the result."""
+        import random
+        import numpy as np
+        rng = random.Random(len(json.dumps(c, sort_keys=True)))
+        order = list(rsys.substances)
+        nb = 3
+        pts = [{k: Fraction(rng.randint(1, 30), rng.randint(1, 7)) for k in order} for _ in range(nb)]
+        batch = {k: np.array([p[k] for p in pts], dtype=object) for k in order}
+        snap = {k: list(v) for k, v in batch.items()}
+        try:
+            rb = rsys.rates(batch)
+        except Exception as e:
+            return 'rates() with array-valued concentrations raised %s' % exc_name(e)
+        if any(list(batch[k]) != snap[k] for k in order):
+            return 'rates() modified the concentration arrays it was given'
+        for j, p in enumerate(pts):
+            rs_ = rsys.rates(p)
+            for k in rs_:
+                vb = rb[k][j] if hasattr(rb[k], '__len__') else rb[k]
+                if kg.to_frac(vb) != kg.to_frac(rs_[k]):
+                    return ('rates() on a batch of states (numpy arrays): d[%s]/dt of state %d is %s, evaluated alone it is %s'
+                            % (k, j, vb, rs_[k]))
+            for row, e in zip(B, keys):
+                d = sum(Fraction(b) * kg.to_frac(rs_.get(k, 0)) for b, k in zip(row, order))
+                if d != 0:
+                    return 'composition row of key %s is no invariant: B.rates(c) = %s' % (e, d)
         return None
 
     def _oracle_attr(self, c):
@@ -705,7 +884,7 @@ class C05(Property):
         if any(cj is None for _, cj in c['subs']):
             return None
         rxn = kg.mk_reaction(c['rxn'], 'int')
-        subs = self._substances(c['subs'], c.get('masses'))
+        subs = self._substances(c['subs'], c.get('masses'), c=c)
         viol = dict(self._balanced(c, c['rxn']))
         if c['which'] == 'charge':
             got = rxn.charge_neutrality_violation(subs)
@@ -762,6 +941,15 @@ class C05(Property):
                         % (c['preferred'], odesys.names[i], y[i], v))
         return None
 
+    def known_key(self, c, failure):
+        """open finding: a reaction that is exactly balanced over NON-INTEGER (decimal) composition amounts is rejected because
+        the float accumulation `net += amount * coeff` is not exactly 0 and `net != 0` is an exact comparison.  The oracle verifies the
+        whole predicate (exact sum 0, float sum != 0, a non-integer amount takes part, reported net of round-off size) before it
+        emits the marker."""
+        if c.get('op') == 'check_balance' and c.get('dec') and str(failure).startswith('[float-roundoff]'):
+            return 'check_balance:float-roundoff-decimal-compositions'
+        return None
+
     def classify(self, c):
         op = c.get('op')
         if op == 'history':
@@ -770,7 +958,8 @@ class C05(Property):
         pl = 'balanced' if p == 'balanced' else ('unbalanced:charge' if p and p[2] == 0 else 'unbalanced:element')
         nocomp = any(cj is None for _, cj in c.get('subs', []))
         if op == 'check_balance':
-            return 'check_balance:%s:%s%s%s' % (c['via'], pl, ':strict' if c['strict'] else '', ':no-composition' if nocomp else '')
+            return 'check_balance:%s:%s%s%s%s' % (c['via'], pl, ':strict' if c['strict'] else '', ':no-composition' if nocomp else '',
+                                                  ':decimal' if c.get('dec') else '')
         if op == 'elim':
             return 'odesys:preferred=%s' % ('None' if c['preferred'] is None else len(c['preferred']))
         return '%s:%s%s' % (op, pl, ':no-composition' if nocomp else '')
